@@ -343,7 +343,28 @@ fn run_case(case: &Case, ctx: &Ctx) -> Result<Stats, Outcome> {
         return Ok(stats);
     }
     // the cut
-    let k = 1 + (case.at as usize * count >> 16);
+    // Half of the cases cut uniformly over the mutations the twin counted. The other half first
+    // picks one of the stores the operation touched (key-value name space or directory of the
+    // repository) and then a mutation of that store, so that stores with few writes among many
+    // (write-ahead log, status, task queue, signer keys) are cut as often as the busy ones.
+    let k = if case.at & 2 == 0 {
+        1 + (case.at as usize * count >> 16)
+    } else {
+        let mut groups: BTreeMap<String, Vec<usize>> = BTreeMap::new();
+        for (i, p) in twin_points.iter().enumerate().take(count) {
+            let rel = p.path.strip_prefix(&dir_b).unwrap_or(&p.path);
+            let store: Vec<String> = rel.components().take(2).map(|c| c.as_os_str().to_string_lossy().to_string()).collect();
+            groups.entry(format!("{}:{}", p.kind, store.join("/"))).or_default().push(i);
+        }
+        let groups: Vec<Vec<usize>> = groups.into_values().collect();
+        if groups.is_empty() {
+            1 + (case.at as usize * count >> 16)
+        } else {
+            stats.classes.push("cut_chosen_per_store".into());
+            let g = &groups[(case.at as usize >> 2) % groups.len()];
+            1 + g[((case.at as usize >> 4) * g.len()) >> 12]
+        }
+    };
     let mode = if case.crash { FaultMode::CrashAt(k) } else { FaultMode::FailAt(k) };
     hooks::h().set_fault(mode, Some(dir_a.clone()));
     let ra = a.apply(&target);
